@@ -77,6 +77,7 @@ func main() {
 	writeIfChanged(filepath.Join(*out, "Layouts.lean"), w.genLayouts())
 	writeIfChanged(filepath.Join(*out, "layouts.json"), w.layoutsJSON())
 	writeIfChanged(filepath.Join(*out, "Tables.lean"), w.genTables())
+	writeIfChanged(filepath.Join(*out, "Lifecycle.lean"), w.genLifecycle())
 }
 
 func writeIfChanged(path, content string) {
